@@ -1211,12 +1211,32 @@ impl MutableArchive {
             return self.write_tables_v3_plus();
         }
 
-        // For V1/V2 archives, use the original simple approach
+        // For V1/V2 archives both tables are rewritten behind all file data: the block
+        // table grows with every added file and, left at its original position, would run
+        // into the data appended after it
         let archive_offset = self.archive.archive_offset();
+        let hash_table_size = header.hash_table_size;
+        let orig_block_table_pos = header.block_table_pos;
+        let tables_pos = self.get_archive_end_offset()?;
+        let new_hash_pos = tables_pos - archive_offset;
+        let new_block_pos = new_hash_pos + hash_table_size as u64 * 16;
+        let relocated = self.hash_table.is_some() && self.block_table.is_some();
+        if relocated {
+            self.updated_hash_table_pos = Some(new_hash_pos);
+            self.updated_block_table_pos = Some(new_block_pos);
+            let block_count = self.block_table.as_ref().map(|t| t.entries().len()).unwrap_or(0);
+            let tables_end = archive_offset + new_block_pos + block_count as u64 * 16;
+            // later additions in this session go behind the relocated tables
+            self.next_file_offset = Some((tables_end + 511) & !511);
+        }
 
         // Write hash table
         if let Some(hash_table) = &self.hash_table {
-            let hash_table_pos = archive_offset + header.hash_table_pos as u64;
+            let hash_table_pos = if relocated {
+                archive_offset + new_hash_pos
+            } else {
+                archive_offset + self.archive.header().hash_table_pos as u64
+            };
             self.file.seek(SeekFrom::Start(hash_table_pos))?;
 
             // Convert to bytes and encrypt
@@ -1245,7 +1265,11 @@ impl MutableArchive {
 
         // Write block table
         if let Some(block_table) = &self.block_table {
-            let block_table_pos = archive_offset + header.block_table_pos as u64;
+            let block_table_pos = if relocated {
+                archive_offset + new_block_pos
+            } else {
+                archive_offset + orig_block_table_pos as u64
+            };
             self.file.seek(SeekFrom::Start(block_table_pos))?;
 
             // Convert to bytes and encrypt
@@ -1617,6 +1641,18 @@ impl MutableArchive {
                 header.block_table_size = new_size;
                 needs_update = true;
             }
+        }
+
+        // Relocated tables (and the data appended before them) change positions and size
+        if let (Some(_), Some(block_pos)) =
+            (self.updated_hash_table_pos, self.updated_block_table_pos)
+        {
+            let end = block_pos + header.block_table_size as u64 * 16;
+            header.archive_size = end.min(u32::MAX as u64) as u32;
+            if header.archive_size_64.is_some() {
+                header.archive_size_64 = Some(end);
+            }
+            needs_update = true;
         }
 
         if needs_update {
